@@ -323,7 +323,10 @@ def run_hypothesis(prop, ctx, unit, n_examples, seed, raise_on=None, shrink_budg
     strat = prop.strategy(ctx.tier, unit)
     # thorough tier: targeted property-based testing - Hypothesis hill-climbs towards inputs that maximise the
     # residual/tolerance ratio of (up to six of) the property's sub-oracles, i.e. it searches for the worst case
-    targeting = raise_on is None and ctx.tier == "thorough" and getattr(prop, "TARGETED", False)
+    # (only in the small dedicated units named "target-<i>": the optimiser's running time is hard to predict - some shards
+    #  of a 60 000-example targeted run took ten times longer than the others - so the bulk of the budget is plain generation)
+    targeting = (raise_on is None and ctx.tier == "thorough" and getattr(prop, "TARGETED", False)
+                 and isinstance(unit, str) and unit.startswith("target-"))
     phases = (Phase.generate,) if raise_on is None else (Phase.generate, Phase.shrink)
     if targeting:
         phases = (Phase.generate, Phase.target)
